@@ -7,15 +7,18 @@ from ..mir import generic_path, proj, phi as mkphi
 
 
 def spread_guard(P, pr):
+    from .. import names
+    N = names.get(P)
     f = pr.swap_handler
     out = []
     for b, p, fr, t in P.calls(f):
         if roles.is_workspace_fn(P, p):
             g = P.fn(p) or P.fn(generic_path(p))
-            if any(True for _ in common.agg_sites(g, lambda rv: rv["adt"].endswith("ContractError") and rv["variant"] == "MaxSpreadAssertion")):
+            ns = names.norm_sig(g.sig) if g is not None and g.sig else None
+            if ns and ns[1] == names.res("()", N.ContractError) and ns[0].count("std::option::Option<cosmwasm_std::Decimal>") == 2 and (b, g) not in out:
                 out.append((b, g))
     if len(out) != 1:
-        raise AnchorMissing("spread guard (callee of the swap handler constructing MaxSpreadAssertion): %d found" % len(out))
+        raise AnchorMissing("spread guard (callee of the swap handler: fn(Option<Decimal>, Option<Decimal>, ..) -> Result<(), ContractError>): %d found" % len(out))
     return out[0]
 
 
@@ -312,7 +315,7 @@ def _run(ctx):
     ratio_s_ref = T.floors.floor(S * RF(D18) / (R + S), "ref spread ratio")
     errs = {}
     for (b, i, cls, v) in common.exit_sites(P, g):
-        if cls == "err" and v[0] == "agg" and "MaxSpreadAssertion" in ctx.show(v, 3):
+        if cls == "err" and v[0] == "agg":
             errs[b] = common.control_conditions(P, g, b)
     modes = {}
     for b, conds in errs.items():
